@@ -14,7 +14,6 @@ from verifkit.core import *
 
 PID = "C09"
 FILES = HARNESS_BASE + ["lab_*.go", "src_*.go", "vir_builders.go", "c09_*.go"]
-PROPOSED = os.path.join(WORK, "proposed_findings_C09.json")
 CORPUS = os.path.join(VERIF, "corpus", "C09.tsv")
 
 
@@ -117,14 +116,6 @@ class Runner:
         self.tags = collections.Counter()
         self.pending, self.disagree = [], []
         self.shrink_deadline = time.time() + 150
-        if os.path.exists(PROPOSED):
-            try:
-                # a proposed entry refines the merged entry of the same id until it is merged again
-                for f in json.load(open(PROPOSED)).get("findings", []):
-                    if f.get("property") == PID:
-                        c.known[:] = [k for k in c.known if k["id"] != f["id"]] + [f]
-            except Exception as e:
-                c.oblige("proposed findings file is readable", False, str(e))
 
     def stream(self, name, stream="c09-lab", **kw):
         c, st = self.c, self.stats
@@ -292,6 +283,8 @@ def main():
         r.stream("c09-lab", n=14 if quick else 60, seed=s, veneers=65, peropt=3, seqs=4 if quick else 8, tier=c.tier)
     r.stream("c09-lab-alias", n=8 if quick else 30, seed=c.seed + 7, veneers=40, switches="+def.scalar,+def.collection",
              formats="jsonschema,openapi", tier=c.tier)
+    # chains of struct members flattened into options several levels deep (sibling assignment paths of length >= 4)
+    r.stream("c09-lab-deep", n=6 if quick else 24, seed=c.seed + 13, deep=1, tier=c.tier)
     r.report()
 
     st = r.stats
